@@ -271,4 +271,10 @@ theorem natToHex_no_leading_zero (n : Nat) (hn : 0 < n) : (natToHex n).head? ≠
         rw [hq] at this
         simpa using this
 
+/-! ### non-vacuity: concrete inputs on which the hypotheses hold (evaluated by the kernel) -/
+open FFS.Model.EthTypes
+example : (bigIntegerFromString "0x1f".toList .fail .fail == .ok 31) = true := by decide +kernel
+example : (bigIntegerFromString "1e3".toList (.int 1000) (.int 1000) == .ok 1000) = true := by decide +kernel
+example : (bigIntegerFromString "1.5".toList .notInt .notInt == .err) = true := by decide +kernel
+
 end FFS.Props.C19
